@@ -72,6 +72,9 @@ pub struct RdbEngine {
     /// Is background save in progress?
     bgsave_in_progress: Arc<Mutex<bool>>,
     
+    /// Held by a save from opening the temporary file to renaming it: every saver shares that one file
+    save_lock: Arc<Mutex<()>>,
+    
     /// Last save time
     last_save_time: Arc<RwLock<Option<SystemTime>>>,
     
@@ -123,6 +126,7 @@ impl RdbEngine {
         Self {
             file_path,
             bgsave_in_progress: Arc::new(Mutex::new(false)),
+            save_lock: Arc::new(Mutex::new(())),
             last_save_time: Arc::new(RwLock::new(None)),
             config,
         }
@@ -148,7 +152,11 @@ impl RdbEngine {
     /// Perform blocking save
     pub fn save(&self, storage: &Arc<StorageEngine>) -> Result<()> {
         // Note: We don't check bgsave_in_progress here because save() can be called
-        // from within bgsave() thread. The caller is responsible for managing concurrency.
+        // from within bgsave() thread.
+        // One saver at a time: SAVE, SHUTDOWN, BGSAVE and the auto-save all come through here and all
+        // write the same temporary file. A second saver that opened it (O_TRUNC) while the first was
+        // still writing left a file with a hole renamed over the dump; it now waits for the first.
+        let _saving = self.save_lock.lock().unwrap_or_else(|e| e.into_inner());
         
         // Create temporary file
         let temp_path = self.file_path.with_extension("tmp");
@@ -483,6 +491,7 @@ impl Clone for RdbEngine {
         Self {
             file_path: self.file_path.clone(),
             bgsave_in_progress: Arc::clone(&self.bgsave_in_progress),
+            save_lock: Arc::clone(&self.save_lock),
             last_save_time: Arc::clone(&self.last_save_time),
             config: self.config.clone(),
         }
